@@ -93,24 +93,20 @@ def get_text_from(path, encoding=None) -> str:
     except TypeError:
         # Not an os.PathLike, maybe it is an already-opened file object
         if path.readable():
-            position = path.tell()
+            # A pipe (like STDIN) cannot say where it is, or go back there.
+            position = path.tell() if path.seekable() else None
             try:
                 s = path.read()
                 if isinstance(s, bytes):
-                    # Oh, it was opened in 'b' mode, need to rewind and
-                    # decode.  Since the 'catch' below already does that,
-                    # we'll just emit a ... contrived ... UnicodeDecodeError
-                    # so we don't have to double-write the code:
-                    raise UnicodeDecodeError(
-                        "utf_8",
-                        "dummy".encode(),
-                        0,
-                        1,
-                        "file object in byte mode",
-                    )
+                    # Oh, it was opened in 'b' mode, need to decode the
+                    # part that can be decoded (as decode_by_char() would,
+                    # but we already have all of the bytes).
+                    s = decode_by_char(io.BytesIO(s))
             except UnicodeDecodeError:
                 # All of the bytes weren't decodeable, maybe the initial
                 # sequence is (as above)?
+                if position is None:
+                    raise
                 path.seek(position)  # Reset after the previous .read():
                 s = decode_by_char(path)
 
